@@ -60,6 +60,7 @@ def run(payload):
             r['spec'] = spec
             m = gen.build(spec)
             f0 = spec['f']
+            r['src0'] = [int(s_['pulse']) for s_ in spec['sources']]
             ops = []
             nops = rng.randint(3, 9)
             bad = []
@@ -109,6 +110,19 @@ def run(payload):
             mf.compute_near_field([lam, 0.5 * lam, lam], [lam / 7, 0.1, 0.1], [2, 1, 1])
             near_b = (np.array(mf.e_field), np.array(mf.h_field))
             bad += _differs(a, b)
+            # what is left in memory, in the terms of Model/Session.v: where the right-hand side is non-zero, and how many times
+            # the loads sit on the diagonal of the matrix (measured against an unloaded matrix at the same frequency)
+            rhs = np.array(m.rhs); r['rhs_nz'] = [int(i) for i in np.nonzero(rhs)[0]]
+            r['src_pulses'] = sorted(int(s_['pulse']) for s_ in spec['sources'] if complex(*s_['v']) != 0)
+            su = copy.deepcopy(sf); su['loads'] = []
+            mu = gen.build(su); mu.compute_impedance_matrix()
+            dz_f = np.diag(np.array(mf.Z)) - np.diag(np.array(mu.Z)); dz_r = np.diag(np.array(m.Z)) - np.diag(np.array(mu.Z))
+            big = np.abs(dz_f) > 1e-9 * np.abs(np.diag(np.array(mu.Z)))
+            mult = None
+            if big.any():
+                q = dz_r[big] / dz_f[big]
+                mult = float(np.real(q).mean()) if np.abs(q - q.mean()).max() < 1e-6 else -1.0
+            r['load_mult'] = mult
             for x, y, nm in ((near_a[0], near_b[0], 'E'), (near_a[1], near_b[1], 'H')):
                 if np.abs(x - y).max() > 1e-12 * np.abs(y).max():
                     bad.append('near %s field after the history differs from a fresh object by %.3g relative' % (nm, np.abs(x - y).max() / np.abs(y).max()))
